@@ -151,6 +151,25 @@ func verifSettings() []verifSetting {
 			residue: func(m *verifMeas) [][2]string { return nil },
 			keep:    func(m *verifMeas) bool { return m.unit == "widgets" },
 		},
+		{ // a whole group ignored: rows by base name, the rest of the name ignored — no warning may mention .fullname
+			args:  []string{"-row", ".name", "-ignore", ".fullname"},
+			table: func(m *verifMeas) [][2]string { return verifCfgFields(m) },
+			row: func(m *verifMeas) [][2]string {
+				b, _, _ := verifNameParts(m.name)
+				return verifOne(".name", b)
+			},
+			col:     file,
+			residue: func(m *verifMeas) [][2]string { return nil },
+			keep:    all,
+		},
+		{ // file configuration ignored as a group: one table per unit, no warning about configuration
+			args:    []string{"-table", "", "-ignore", ".config"},
+			table:   func(m *verifMeas) [][2]string { return nil },
+			row:     fullname,
+			col:     file,
+			residue: func(m *verifMeas) [][2]string { return nil },
+			keep:    all,
+		},
 		{ // filter on a name key, rows by name and size
 			args:  []string{"-filter", "/size:1", "-row", ".name,/size", "-col", ".file,goos"},
 			table: func(m *verifMeas) [][2]string { return verifCfgFields(m, "goos") },
@@ -531,7 +550,7 @@ func verifPipeline(t *testing.T, tier string) {
 				}
 			}
 			switch si {
-			case 5:
+			case 7:
 				colFields = 2
 			default:
 				colFields = 1
@@ -1001,5 +1020,60 @@ func verifTextCSV(t *testing.T, tier string) {
 			}
 		}
 	}
-	fmt.Printf("BOUNDED-RESULT {\"cases\": %d, \"failures\": %d, \"bound\": \"%d random input sets x %d flag settings, text and CSV renderings compared\", \"exhaustive\": false}\n", n, fails, rounds, len(flagSets))
+	// many distinct warnings in one table: every footnote mark is distinct and leads from
+	// the row that carries it to that row's own warning (the CSV stream names the cell)
+	for _, nb := range []int{3, 9, 12, 25, 101} {
+		var b strings.Builder
+		b.WriteString("Unit widgets assume=exact\n")
+		for k := 0; k < nb; k++ {
+			fmt.Fprintf(&b, "BenchmarkB%03d 1 %d widgets\nBenchmarkB%03d 1 %d widgets\n", k, 1000+10*k, k, 1000+10*k+1)
+		}
+		p := filepath.Join(dir, fmt.Sprintf("warn%d.txt", nb))
+		if err := os.WriteFile(p, []byte(b.String()), 0666); err != nil {
+			t.Fatal(err)
+		}
+		var txt, txtErr bytes.Buffer
+		if err := benchstat(&txt, &txtErr, []string{p}); err != nil {
+			bad("warnings table (%d rows): %v", nb, err)
+			continue
+		}
+		foot := map[string]string{}
+		var rows []string
+		for _, line := range strings.Split(txt.String(), "\n") {
+			f := verifFields(line)
+			if len(f) == 0 {
+				continue
+			}
+			if verifIsSuper(f[0].text) {
+				n++
+				if _, dup := foot[f[0].text]; dup {
+					bad("warnings table (%d rows): footnote mark %s is used for two different footnotes\n%s", nb, f[0].text, txt.String())
+				}
+				foot[f[0].text] = strings.TrimSpace(line[len(f[0].text):])
+			} else if strings.HasPrefix(f[0].text, "B") && len(f[0].text) == 4 {
+				rows = append(rows, line)
+			}
+		}
+		n++
+		if len(rows) != nb || len(foot) != nb {
+			bad("warnings table: %d rows and %d footnotes for %d benchmarks with one warning each\n%s", len(rows), len(foot), nb, txt.String())
+			continue
+		}
+		for _, line := range rows {
+			f := verifFields(line)
+			k, _ := strconv.Atoi(f[0].text[1:])
+			want := fmt.Sprintf("exact distribution expected, but values range from %d to %d", 1000+10*k, 1000+10*k+1)
+			n++
+			found := false
+			for _, tk := range f[1:] {
+				if verifIsSuper(tk.text) && foot[tk.text] == want {
+					found = true
+				}
+			}
+			if !found {
+				bad("warnings table (%d rows): the marks on row %q do not lead to its warning %q\n%s", nb, line, want, txt.String())
+			}
+		}
+	}
+	fmt.Printf("BOUNDED-RESULT {\"cases\": %d, \"failures\": %d, \"bound\": \"%d random input sets x %d flag settings, text and CSV renderings compared; tables with 3..101 distinct footnotes\", \"exhaustive\": false}\n", n, fails, rounds, len(flagSets))
 }
